@@ -198,10 +198,11 @@ def Entry.cpioWritten (e : Entry) : Entry :=
   { e with hardlink := none, sizeSet := true, size := sz,
            payload := match e.payload with
              | .data c => if sz == 0 then .data emptyContent else .data c
-             -- hard link name and symlink target share one field of the entry
-             -- (archive_entry_copy_hardlink overwrites it): the writer stores the link name as target
+             -- an entry is a hard link or a symlink, never both: archive_entry_copy_hardlink (called by
+             -- archive_entry_linkify) drops the symlink target, archive_entry_symlink() is then NULL and
+             -- the writer stores a symlink with an empty body
              | .target t => match e.hardlink with
-               | some q => .target (joined q)
+               | some _ => .target []
                | none => .target t
              | x => x }
 
@@ -224,18 +225,19 @@ def cpioArchive (st : Lnk.Strategy) (es : List Entry) : List Entry :=
   cpioReadLinks [] ((linkify st es).map Entry.cpioWritten)
 
 /-- xar writer (archive_write_set_format_xar.c), link handling: only a regular file can be
-written as `<type link="...">`.  A later name of a symlink or fifo keeps its own type; for a
-symlink the hard-link name has by then replaced the target (one field of the entry holds both,
-`archive_entry_copy_hardlink` in `archive_entry_linkify`). -/
+written as `<type link="...">`.  A later name of a fifo keeps its own type (a separate fifo).
+A later name of a symlink has lost its target (`archive_entry_copy_hardlink` in
+`archive_entry_linkify` clears it): it is written as a symlink without `<link>`, read back as
+a symlink entry without target, and `create_filesystem_object` then falls through to the
+regular-file case: an empty regular file. -/
 def Entry.xarWritten (e : Entry) : Entry :=
   match e.hardlink with
   | none => e
-  | some q =>
+  | some _ =>
     if e.ftype == .reg then e else
-    { e with hardlink := none, sizeSet := true,
-             payload := match e.payload with
-               | .target _ => .target (joined q)
-               | x => x }
+    match e.payload with
+    | .target _ => { e with hardlink := none, sizeSet := true, ftype := .reg, payload := .data emptyContent, size := 0 }
+    | _ => { e with hardlink := none, sizeSet := true }
 
 def xarArchive (es : List Entry) : List Entry := (linkify .tar es).map Entry.xarWritten
 
@@ -404,6 +406,8 @@ def restoreEntry (o : Opts) (w : WD) (e : Entry) : WD × St :=
     | _ =>
       if (w.fs.lookup e.path).isSome || !w.fs.canCreate o.root e.path then (w, .failed) else
       let k := kindOf e
+      -- symlink(2) refuses an empty target (ENOENT)
+      if k == .lnk [] then (w, .failed) else
       -- symlink(2) makes 0777 and Linux has no lchmod; everything else ends with set_mode(a->mode)
       let mode := match k with
         | .lnk _ => 0o777
